@@ -1,0 +1,77 @@
+//go:build verif
+
+package board
+
+import (
+	"fmt"
+	"sync/atomic"
+
+	. "github.com/paulsonkoly/chess-3/chess"
+)
+
+// VerifCheckEnabled switches the in-situ consistency monitor on. It must be
+// set before any board is used concurrently.
+var VerifCheckEnabled bool
+
+// VerifCheckCount counts the make/undo events the monitor has checked.
+var VerifCheckCount atomic.Int64
+
+// VerifCheckFail, when set, is called with a description instead of panicking.
+var VerifCheckFail func(msg string)
+
+// verifCheck re-establishes the consistency check the author left commented
+// out: incremental hash equals recomputed hash, and the three placement
+// encodings agree.
+func (b *Board) verifCheck() {
+	if !VerifCheckEnabled {
+		return
+	}
+	VerifCheckCount.Add(1)
+	if msg := b.VerifConsistency(); msg != "" {
+		msg = fmt.Sprintf("verifCheck: %s fen=%q", msg, b.FEN())
+		if VerifCheckFail != nil {
+			VerifCheckFail(msg)
+			return
+		}
+		panic(msg)
+	}
+}
+
+// VerifConsistency returns a non-empty description if the board's redundant
+// state is inconsistent.
+func (b *Board) VerifConsistency() string {
+	if len(b.hashes) > 0 && b.Hash() != b.calculateHash() {
+		return fmt.Sprintf("inconsistent hash incremental=%016x scratch=%016x", uint64(b.Hash()), uint64(b.calculateHash()))
+	}
+	if b.Colors[White]&b.Colors[Black] != 0 {
+		return "colour sets overlap"
+	}
+	if b.Pieces[NoPiece] != 0 {
+		return "Pieces[NoPiece] not empty"
+	}
+	var union BitBoard
+	for piece := Pawn; piece <= King; piece++ {
+		if union&b.Pieces[piece] != 0 {
+			return "piece-type sets overlap"
+		}
+		union |= b.Pieces[piece]
+	}
+	if union != b.Colors[White]|b.Colors[Black] {
+		return "piece-type sets disagree with colour sets"
+	}
+	for sq := A1; sq <= H8; sq++ {
+		p := b.SquaresToPiece[sq]
+		bb := BitBoard(1) << sq
+		if p > King {
+			return fmt.Sprintf("SquaresToPiece[%v] out of range", sq)
+		}
+		if p == NoPiece {
+			if union&bb != 0 {
+				return fmt.Sprintf("SquaresToPiece[%v] empty but bitboards occupied", sq)
+			}
+		} else if b.Pieces[p]&bb == 0 {
+			return fmt.Sprintf("SquaresToPiece[%v]=%d but Pieces bit clear", sq, p)
+		}
+	}
+	return ""
+}
